@@ -732,3 +732,47 @@ Print Assumptions line_format_texts_are_variants.
 Example line_format_text_hyp :
   LogqlTemplateTextProofs.no_open "it's }} { 100% \" = true /\ LogqlTemplateTextProofs.no_open "" = true /\ LogqlTemplateTextProofs.no_open "a{{.b}}" = false.
 Proof. exact LogqlTemplateTextProofs.text_templates_hyp. Qed.
+
+(* ---------- round 4: the label-values and series endpoints (QueryLabelsService.Values / PromValues / Series as modelled by C13 in
+   model/ScansPlanners.v: ValuesPlanner, SeriesPlanner, MultiStreamSelectPlanner over the LogQL stream selector).  The label name of the URL
+   and the label names and values of the match[] selectors are values: for ALL lists of selectors. *)
+From Qryn Require model.ScansPlanners model.SqlPiecesLabels proofs.LabelsEraseProofs.
+
+Theorem label_values_statement_is_value_independent : forall c key key' sels sels' q p,
+  SqlPiecesLabels.sels_variant sels sels' ->
+  SqlPiecesLabels.values_tree c key sels = Some q -> pieces q false = Some p -> pok QN p = true ->
+  exists q' p', SqlPiecesLabels.values_tree c key' sels' = Some q' /\ pieces q' false = Some p' /\ pok QN p' = true /\ shape p' = shape p /\
+    ScansPlanners.values_sql c key sels = Some (flat p) /\ ScansPlanners.values_sql c key' sels' = Some (flat p') /\
+    skeleton (lex (flat p')) = skeleton (lex (flat p)) /\ lex (flat p') = etoks QN p' /\
+    List.length (rvalues p') = List.length (rvalues p).
+Proof. exact LabelsEraseProofs.label_values_value_independent. Qed.
+Print Assumptions label_values_statement_is_value_independent.
+
+Theorem series_statement_is_value_independent : forall c sels sels' q p,
+  SqlPiecesLabels.sels_variant sels sels' ->
+  SqlPiecesLabels.series_tree c sels = Some q -> pieces q false = Some p -> pok QN p = true ->
+  exists q' p', SqlPiecesLabels.series_tree c sels' = Some q' /\ pieces q' false = Some p' /\ pok QN p' = true /\ shape p' = shape p /\
+    ScansPlanners.series_sql c sels = Some (flat p) /\ ScansPlanners.series_sql c sels' = Some (flat p') /\
+    skeleton (lex (flat p')) = skeleton (lex (flat p)) /\ lex (flat p') = etoks QN p' /\
+    List.length (rvalues p') = List.length (rvalues p).
+Proof. exact LabelsEraseProofs.series_value_independent. Qed.
+Print Assumptions series_statement_is_value_independent.
+
+(* hypotheses met: /label/lbl/values?match[]={a="zqxmark"}&match[]={c=~"d"} against label `l'bl` with {a'="' OR 1=1 --"} and {c=~"^(?:x|y')$"} *)
+Example label_values_variant_example :
+  let c := {| LogqlPlan.c_from_ns := 1700000000000000000%Z; LogqlPlan.c_to_ns := 1700003600000000000%Z; LogqlPlan.c_limit := 10000%Z;
+              LogqlPlan.c_asc := false; LogqlPlan.c_cluster := false; LogqlPlan.c_type := 1%Z; LogqlPlan.c_finalize := false;
+              LogqlPlan.c_step_ns := 0%Z; LogqlPlan.t_gin := "time_series_gin"; LogqlPlan.t_samples := "samples"; LogqlPlan.t_ts := "time_series";
+              LogqlPlan.t_ts_dist := "time_series_dist"; LogqlPlan.t_m15 := "m15" |} in
+  let m := fun n op v => {| Logql.m_name := n; Logql.m_op := op; Logql.m_val := v |} in
+  let sels := [[m "a" Logql.MEq "zqxmark"]; [m "c" Logql.MRe "d"]] in
+  let sels' := [[m "a'" Logql.MEq "' OR 1=1 --"]; [m "c" Logql.MRe "^(?:x|y')$"]] in
+  SqlPiecesLabels.sels_variant sels sels' /\
+  match SqlPiecesLabels.values_tree c "lbl" sels with
+  | Some q => match pieces q false with Some p => pok QN p = true /\ List.length (rvalues p) = 9%nat | None => False end
+  | None => False
+  end.
+Proof.
+  split; [|vm_compute; split; reflexivity].
+  constructor; [constructor; [reflexivity|constructor]|]. constructor; [constructor; [reflexivity|constructor]|constructor].
+Qed.
